@@ -336,6 +336,8 @@ def thread_build(seed, i, tier):
                 ops.append({"h": h, "name": "$construct", "args": []})
             elif roll < 0.45:
                 ops.append({"h": h, "name": "$rebind", "args": [f"alt{rs.randrange(2)}.json"]})
+            elif roll < 0.48:
+                ops.append({"h": h, "name": "$iter_partial", "args": []})
             elif roll < 0.53 and nres == 2:
                 # copy from a collection bound to the OTHER file (a.update(b) next to b.update(a)): two per-file locks
                 others = [x for x in range(nobj) if obj_rid[x] != obj_rid[h]]
@@ -371,6 +373,13 @@ def thread_build(seed, i, tier):
     return {"cfg": cfg, "pre": pre, "progs": progs, "strat": strat, "sched_seed": f"{seed}/{ID}/{i}", "ctx": ctx, "shape": "mix"}
 
 
+_KEEP = []
+
+
+def plain_first(x):
+    return None if x is None or not isinstance(x, (str, int, float, bool)) else x
+
+
 def _special_ops():
     """Extend the library-op dispatcher with the C10-only pseudo operations (executed inside simulated threads)."""
     orig = M._lib_apply
@@ -396,6 +405,11 @@ def _special_ops():
         if name == "$rebind":
             n.filename = os.path.join(os.path.dirname(n.filename), a[0])
             return None
+        if name == "$iter_partial":
+            # an iteration that is started and not finished (the iterator stays alive): nothing may stay locked behind it
+            it = iter(n)
+            _KEEP.append(it)
+            return plain_first(next(it, None))
         raise NotImplementedError(name)
     M._lib_apply = apply
 
